@@ -3,17 +3,13 @@ import DFV.Lemmas.C03b
 namespace DFV.C03
 open DFV
 
-/-- the component list NumPy broadcasting pairs with cell `i` for an arbitrary array-like
-(0-d arrays / numbers: the single value) -/
-def opdCell (a : NDA GQ) (i : List Nat) : List GQ := if a.shape = [] then [a.get []] else cellOfB a i
-
 /-- length of the last axis, 1 for 0-d arrays -/
-def lastDim (s : List Nat) : Nat := if s = [] then 1 else s.getLastD 0
+def lastDim (s : List Nat) : Nat := if s = [] then 1 else lastAx s
 
 theorem list_nil_or_concat (s : List Nat) : s = [] ∨ ∃ t m, s = t ++ [m] := by
   rcases List.eq_nil_or_concat s with h | ⟨t, m, h⟩
   · exact Or.inl h
-  · exact Or.inr ⟨t, m, h⟩
+  · exact Or.inr ⟨t, m, by simpa using h⟩
 
 theorem lastDim_concat (t : List Nat) (m : Nat) : lastDim (t ++ [m]) = m := by
   unfold lastDim
@@ -71,13 +67,13 @@ theorem bdim_one_right (m : Nat) : bdim m 1 = some m := by
 
 /-- the last axis of a broadcast shape, in terms of `lastDim` -/
 theorem bshape_lastDim (s t r : List Nat) (h : bshape s t = some r) (hr : r ≠ []) :
-    bdim (lastDim s) (lastDim t) = some (r.getLastD 0) := by
+    bdim (lastDim s) (lastDim t) = some (lastAx r) := by
   rcases list_nil_or_concat s with hs | ⟨s', k, hs⟩
   · subst hs
     rw [bshape_nil_left] at h
     injection h with h
     subst h
-    have : lastDim t = t.getLastD 0 := by simp [lastDim, hr]
+    have : lastDim t = lastAx t := by simp [lastDim, hr]
     rw [this]
     exact bdim_one_left _
   · rcases list_nil_or_concat t with ht | ⟨t', m, ht⟩
@@ -85,7 +81,7 @@ theorem bshape_lastDim (s t r : List Nat) (h : bshape s t = some r) (hr : r ≠ 
       rw [bshape_nil_right] at h
       injection h with h
       subst h
-      have : lastDim s = s.getLastD 0 := by simp [lastDim, hr]
+      have : lastDim s = lastAx s := by simp [lastDim, hr]
       rw [this]
       exact bdim_one_right _
     · subst hs; subst ht
@@ -115,6 +111,38 @@ theorem bz_length (f : GQ → GQ → GQ) (xs ys : List GQ) :
     (bz f xs ys).length = (if xs.length = 1 then ys.length else xs.length) := by
   simp [bz]
 
+/-- elementwise function on the broadcast views of two arrays at cell `i`: component `c`
+is the function of the two arrays read at `i ++ [c]` through broadcasting -/
+theorem bz_opdCell (fn : GQ → GQ → GQ) (A B : NDA GQ) (s : List Nat)
+    (hs : bshape A.shape B.shape = some s) (hsne : s ≠ []) (i : List Nat) :
+    bdim (lastDim A.shape) (lastDim B.shape) = some (lastAx s) ∧
+    (bz fn (opdCell A i) (opdCell B i)).length = lastAx s ∧
+    ∀ c, c < lastAx s →
+      (bz fn (opdCell A i) (opdCell B i)).getD c GQ.zero =
+        fn (A.get (bproj A.shape (i ++ [c]))) (B.get (bproj B.shape (i ++ [c]))) := by
+  have hbd := bshape_lastDim _ _ _ hs hsne
+  obtain ⟨hd1, hd2⟩ := bdim_some _ _ _ hbd
+  have hlen : (bz fn (opdCell A i) (opdCell B i)).length = lastAx s := by
+    rw [bz_length, opdCell_length, opdCell_length]; exact hd1.symm
+  refine ⟨hbd, hlen, ?_⟩
+  intro c h1
+  have e1 : (bz fn (opdCell A i) (opdCell B i)).getD c GQ.zero =
+      fn ((opdCell A i).getD (if lastDim A.shape = 1 then 0 else c) GQ.zero)
+         ((opdCell B i).getD (if lastDim B.shape = 1 then 0 else c) GQ.zero) := by
+    unfold bz
+    rw [getD_tab _ _ _ _ (by rw [opdCell_length, opdCell_length, ← hd1]; exact h1)]
+    simp only [opdCell_length]
+  rw [e1]
+  have hcA : lastDim A.shape = 1 ∨ c < lastDim A.shape := by
+    by_cases hA : lastDim A.shape = 1
+    · exact Or.inl hA
+    · right; rw [hd1] at h1; simpa [hA] using h1
+  have hcB : lastDim B.shape = 1 ∨ c < lastDim B.shape := by
+    rcases hd2 with hB | hB
+    · exact Or.inl hB
+    · right; rw [hB]; exact h1
+  rw [opdCell_getD A i c hcA, opdCell_getD B i c hcB]
+
 /-- **array-level = cell-level** for a NumPy binary function followed by the constructor:
 if `function(A, B)` is accepted by `Field(mesh, nvdim=res.shape[-1], value=res, …)` then
 cell `i` of the new field is the function applied, with broadcasting of one-element
@@ -125,10 +153,10 @@ theorem npBin_cells (fn : GQ → GQ → GQ) (mesh : Mesh) (A B res : NDA GQ)
     (kind : Kind) (vd : Option (List String)) (valid : Option (NDA Bool)) (vm : Option VMap)
     (unit : Option String) (g : CF)
     (hvs : ∀ v, valid = some v → v.shape = mesh.n)
-    (hg : mkField mesh (res.shape.getLastD 0) (.arr res) kind vd valid vm unit = .ok g) :
+    (hg : mkField mesh (lastAx res.shape) (.arr res) kind vd valid vm unit = .ok g) :
     g.mesh = mesh ∧ CFwf g ∧ g.unit = unit ∧ g.kind = kind.ctor ∧
-    (∀ i, inRange mesh.n i = true →
-      g.valid.get i = (match valid with | some v => v.get i | none => true)) ∧
+    bdim (lastDim A.shape) (lastDim B.shape) = some g.nvdim ∧
+    (∀ i, inRange mesh.n i = true → g.valid.get i = validAt valid i) ∧
     (∀ i, inRange mesh.n i = true →
       cellOf g.data i g.nvdim = bz fn (opdCell A i) (opdCell B i)) := by
   unfold npBin at hres
@@ -142,43 +170,32 @@ theorem npBin_cells (fn : GQ → GQ → GQ) (mesh : Mesh) (A B res : NDA GQ)
       rw [← hres]; simp only; omega
     obtain ⟨hm, hn, hwf, hu, hk, hl, hlen, hb, hdata, hvalid⟩ :=
       mkField_arr mesh _ res kind vd valid vm unit g hrk hvs hg
-    refine ⟨hm, hwf, hu, hk, hvalid, ?_⟩
-    intro i hi
     have hsne : s ≠ [] := by
       intro h0; rw [← hres] at hlen; simp [h0] at hlen
     have hshape : res.shape = s := by rw [← hres]
-    have hbd := bshape_lastDim _ _ _ hs hsne
-    rw [← hshape, hl, ← hn] at hbd
-    obtain ⟨hd1, hd2⟩ := bdim_some _ _ _ hbd
+    have hbd0 := (bz_opdCell fn A B s hs hsne []).1
+    refine ⟨hm, hwf, hu, hk, ?_, hvalid, ?_⟩
+    · rw [hn, hshape]; exact hbd0
+    intro i hi
+    obtain ⟨_, hbl, hbg⟩ := bz_opdCell fn A B s hs hsne i
     apply List.ext_getElem
-    · rw [cellOf_length, bz_length, opdCell_length, opdCell_length]
-      exact hd1
+    · rw [cellOf_length, hbl, hn, hshape]
     · intro c h1 h2
       rw [cellOf_length] at h1
-      have hidx : inRange (mesh.n ++ [res.shape.getLastD 0]) (i ++ [c]) = true := by
-        rw [inRange_append_single]; exact ⟨hi, by rw [hl, ← hn]; exact h1⟩
+      have hc : c < lastAx s := by rw [← hshape]; rw [hn] at h1; exact h1
+      have hidx : inRange (mesh.n ++ [lastAx res.shape]) (i ++ [c]) = true := by
+        rw [inRange_append_single]; exact ⟨hi, by rw [hshape]; exact hc⟩
       simp only [cellOf, getElem_tab]
       rw [hdata _ hidx]
       have hil : (i ++ [c]).length = mesh.n.length + 1 := by
         simp [inRange_length _ _ hi]
-      have e1 : (bz fn (opdCell A i) (opdCell B i))[c] =
-          fn ((opdCell A i).getD (if lastDim A.shape = 1 then 0 else c) GQ.zero)
-             ((opdCell B i).getD (if lastDim B.shape = 1 then 0 else c) GQ.zero) := by
-        simp only [bz, getElem_tab, opdCell_length]
-      rw [e1]
-      have hcA : lastDim A.shape = 1 ∨ c < lastDim A.shape := by
-        by_cases hA : lastDim A.shape = 1
-        · exact Or.inl hA
-        · right; rw [hd1] at h1; simpa [hA] using h1
-      have hcB : lastDim B.shape = 1 ∨ c < lastDim B.shape := by
-        rcases hd2 with hB | hB
-        · exact Or.inl hB
-        · right; rw [hB]; exact h1
-      rw [opdCell_getD A i c hcA, opdCell_getD B i c hcB]
-      rw [← hres]
+      have := hbg c hc
+      rw [List.getD_eq_getElem?_getD, List.getElem?_eq_getElem h2] at this
+      simp only [Option.getD_some] at this
+      rw [this, ← hres]
       simp only
-      rw [bproj_bproj A.shape s (i ++ [c]) (into_left _ _ _ hs) (by rw [← hshape, hlen, hil]; exact Nat.le_refl _),
-          bproj_bproj B.shape s (i ++ [c]) (into_right _ _ _ hs) (by rw [← hshape, hlen, hil]; exact Nat.le_refl _)]
+      rw [bproj_bproj A.shape s (i ++ [c]) (into_left _ _ _ hs) (by rw [← hshape, hlen, hil]),
+          bproj_bproj B.shape s (i ++ [c]) (into_right _ _ _ hs) (by rw [← hshape, hlen, hil])]
 
 /-- the broadcast view of a well-formed field array at an in-range cell is the cell itself -/
 theorem opdCell_field (f : CF) (hw : CFwf f) (i : List Nat) (hi : inRange f.mesh.n i = true) :
